@@ -374,12 +374,53 @@ Proof.
   simpl in IH. rewrite IH. reflexivity.
 Qed.
 
+Lemma dec_live_enc_ops ops : dec_live (enc_ops ops) = None.
+Proof. destruct ops as [|o r]; [reflexivity|]. destruct o; reflexivity. Qed.
+Lemma steps_of_enc_ops ops : steps_of (enc_ops ops) = Some (length ops).
+Proof.
+  unfold enc_ops. destruct ops as [|o r]; [reflexivity|]. destruct o; cbn [map enc_op steps_of]; rewrite ?map_length; try reflexivity.
+  all: destruct r as [|o2 r2]; [reflexivity|]; destruct o2; cbn [map enc_op length]; rewrite ?map_length; try reflexivity.
+  all: destruct r2; reflexivity.
+Qed.
+
 Lemma prop_C36_of_model ops : prop_C36 (enc_ops ops) (run_C36 (enc_ops ops)) = true.
 Proof.
-  unfold run_C36. rewrite dec_ops_enc.
+  unfold run_C36. rewrite dec_live_enc_ops, dec_ops_enc.
   destruct (prun_total pst0 ops wfp0) as (ts & Et & Hl). rewrite Et.
-  unfold prop_C36, enc_ops, enc_out. rewrite !map_length, Hl, Nat.eqb_refl. simpl.
+  unfold prop_C36. rewrite steps_of_enc_ops. unfold enc_out. rewrite !map_length, Hl, Nat.eqb_refl. simpl.
   eapply prun_tables_ok; [exact wfp0|exact Et].
+Qed.
+
+(* ---- live scripts: HEADERS (with or without PRIORITY flag), PRIORITY, RST_STREAM ---- *)
+Lemma psteps_wfp ops : forall s, wfp s -> exists s', psteps s ops = Some s' /\ wfp s'.
+Proof.
+  induction ops as [|o r IH]; intros s W; simpl; [eauto|].
+  destruct (pstep_wfp s o W) as (s1 & E & W1). rewrite E. apply IH. exact W1.
+Qed.
+
+Lemma lrun_ok lops : forall s, wfp s ->
+  exists ts, lrun s lops = Some ts /\ length ts = length lops /\ forallb table_ok (map enc_table ts) = true.
+Proof.
+  induction lops as [|o r IH]; intros s W; simpl; [exists []; auto|].
+  destruct (psteps_wfp (lexpand o) s W) as (s1 & E & W1). rewrite E.
+  destruct (IH s1 W1) as (ts & Et & Hl & Hok). rewrite Et.
+  eexists; split; [reflexivity|]. split; [simpl; congruence|].
+  simpl. rewrite (table_ok_wfp s1 W1). exact Hok.
+Qed.
+
+Lemma dec_live_enc lops : dec_live (enc_live lops) = Some lops.
+Proof.
+  unfold dec_live, enc_live. rewrite map_map. induction lops as [|o r IH]; simpl; [reflexivity|].
+  assert (dec_lop (enc_lop o) = Some o) as -> by (destruct o as [? [] ? ? []|? ? ? []|?]; reflexivity).
+  simpl in IH. rewrite IH. reflexivity.
+Qed.
+
+(* every live script: the serve-loop entry points keep the tree acyclic and every frame is processed (no hang) *)
+Lemma prop_C36_of_model_live lops : prop_C36 (enc_live lops) (run_C36 (enc_live lops)) = true.
+Proof.
+  unfold run_C36. rewrite dec_live_enc.
+  destruct (lrun_ok lops pst0 wfp0) as (ts & Et & Hl & Hok). rewrite Et.
+  unfold prop_C36, enc_live, steps_of, enc_out. rewrite !map_length, Hl, Nat.eqb_refl. exact Hok.
 Qed.
 
 (* non-vacuity witnesses *)
